@@ -1,0 +1,61 @@
+//go:build verif
+
+package parser
+
+import (
+	"regexp"
+	"sort"
+
+	"github.com/yuin/goldmark/text"
+)
+
+// Read-only accessors used by the verification harness in /verif.
+// This file is compiled only with the build tag "verif".
+
+// VerifRegexps returns the compiled regular expressions of the block and inline parsers.
+func VerifRegexps() map[string]*regexp.Regexp {
+	return map[string]*regexp.Regexp{
+		"htmlBlockType1Open":  htmlBlockType1OpenRegexp,
+		"htmlBlockType1Close": htmlBlockType1CloseRegexp,
+		"htmlBlockType2Open":  htmlBlockType2OpenRegexp,
+		"htmlBlockType3Open":  htmlBlockType3OpenRegexp,
+		"htmlBlockType4Open":  htmlBlockType4OpenRegexp,
+		"htmlBlockType5Open":  htmlBlockType5OpenRegexp,
+		"htmlBlockType6":      htmlBlockType6Regexp,
+		"htmlBlockType7":      htmlBlockType7Regexp,
+		"openTag":             openTagRegexp,
+		"closeTag":            closeTagRegexp,
+	}
+}
+
+// VerifAllowedBlockTags returns the tag names that start an HTML block of type 6, sorted.
+func VerifAllowedBlockTags() []string {
+	var r []string
+	for k, v := range allowedBlockTags {
+		if v {
+			r = append(r, k)
+		}
+	}
+	sort.Strings(r)
+	return r
+}
+
+// VerifParseLinkDestination exposes parseLinkDestination.
+func VerifParseLinkDestination(block text.Reader) ([]byte, bool) {
+	return parseLinkDestination(block)
+}
+
+// VerifParseLinkTitle exposes parseLinkTitle.
+func VerifParseLinkTitle(block text.Reader) ([]byte, bool) {
+	return parseLinkTitle(block)
+}
+
+// VerifParseLinkReferenceDefinition exposes parseLinkReferenceDefinition.
+func VerifParseLinkReferenceDefinition(block text.Reader, pc Context) (int, int) {
+	return parseLinkReferenceDefinition(block, pc)
+}
+
+// VerifMatchesSetextHeadingBar exposes matchesSetextHeadingBar.
+func VerifMatchesSetextHeadingBar(line []byte) (byte, bool) {
+	return matchesSetextHeadingBar(line)
+}
